@@ -231,7 +231,11 @@ def make_initial(r, k):
     dt = r.choice(list(DTYPES))
     if kind == 'ctor':
         ny, nx = gens.size(r, 2, 7), gens.size(r, 2, 7)
-        data = gens.label_map(r, ny, nx, maxlabels=5, background=(r.random() < 0.9)).astype(dt)
+        if r.random() < 0.3:                          # clearly elongated arrays (either orientation): interior labels beyond min(shape)
+            ny, nx = r.randint(4, 6), r.randint(10, 15)
+            if r.random() < 0.5:
+                ny, nx = nx, ny
+        data = gens.label_map(r, ny, nx, maxlabels=5 if ny * nx < 50 else 9, background=(r.random() < 0.9)).astype(dt)
         return kind, data, dt, None, SegmentationImage(data.copy())
     if kind == 'detect':
         ny, nx = gens.size(r, 3, 8), gens.size(r, 3, 8)
